@@ -35,7 +35,7 @@ func init() {
 		ID:          "C33",
 		Explanation: "RH4: a query body ((*AnyQuery).Execute → AnyQuery.execute → Query.Execute) is invoked only from task.run on the success edge of task.result.CompareAndSwap(nil, r), and task.result changes only by that election CAS or the un-publication CAS (at most one execution per cache entry on any schedule). RH5: entries leave Executor.tasks only with Executor.dirty held exclusively, and Run holds it shared from entry to exit. RC6: both dependency-edge directions are recorded for every query before any dependency starts. RH6: result.runID is stamped only from Task.runID, which is a fresh counter value per Run or inherited; Changed is their equality. RB: result payload is written only by the leader before close(done) and read only after it. RA: timer map under its mutex; shared fields are sync/atomic types.",
 		NotDecided:  "value equality with a fresh computation; that eviction's closure computation visits exactly the transitive callers",
-		Rules:       []func(*World){rh4Incremental, rh5Incremental, rh6Incremental, rbIncremental, rcIncremental, raIncremental},
+		Rules:       []func(*World){rh4Incremental, rh5Incremental, rh6Incremental, rbIncremental, rcIncremental, raIncremental, rh5cEdgesRemovedOnlyByEviction},
 	})
 	register(&Property{
 		ID:          "C34",
@@ -47,7 +47,7 @@ func init() {
 		ID:          "C35",
 		Explanation: "R35: for every query type in experimental/incremental/queries, Key() returns the whole (comparable) query value, or every receiver field Execute reads flows into Key(). RH7: source.Opener.Open is called (outside package source) only from queries.File.Execute, the leaf that edits evict; everything else reaches file contents through Resolve, which records the dependency edge (RC6). RH4: query bodies run only through the executor.",
 		NotDecided:  "equality of outputs across edit histories; purity of the lowering code beyond the receiver/key discipline",
-		Rules:       []func(*World){r35Queries, rh7Queries, rh4Incremental, rcIncremental},
+		Rules:       []func(*World){r35Queries, rh7Queries, rh4Incremental, rcIncremental, rh5Incremental, rh5cEdgesRemovedOnlyByEviction},
 	})
 	register(&Property{
 		ID:          "C36",
